@@ -10,6 +10,7 @@ import (
 	"encoding/json"
 	"fmt"
 	"os"
+	"runtime"
 	"sort"
 	"strconv"
 	"strings"
@@ -196,6 +197,12 @@ func Main(t *testing.T, props map[string]Prop) {
 	}
 	write = func() {
 		res.WallS = time.Since(start).Seconds()
+		if os.Getenv("VERIF_VERBOSE") != "" {
+			var ms runtime.MemStats
+			runtime.ReadMemStats(&ms)
+			res.Counters[fmt.Sprintf("mem/worker-%d heap_inuse_mb", os.Getpid())] = int64(ms.HeapInuse >> 20)
+			res.Counters[fmt.Sprintf("mem/worker-%d goroutines", os.Getpid())] = int64(runtime.NumGoroutine())
+		}
 		res.Outcomes = res.Outcomes[:0]
 		for k := range outcomes {
 			res.Outcomes = append(res.Outcomes, k)
